@@ -214,7 +214,15 @@ fn merge(into: &mut Value, from: &Value, key: &str) {
             }
         }
         (Value::Array(a), Value::Array(b)) => {
-            if key == "samples" {
+            if key == "state_hashes" {
+                let mut set: std::collections::BTreeSet<u64> = a.iter().filter_map(|v| v.as_u64()).collect();
+                for v in b {
+                    if let Some(x) = v.as_u64() {
+                        set.insert(x);
+                    }
+                }
+                *a = set.into_iter().map(|x| json!(x)).collect();
+            } else if key == "samples" {
                 for v in b {
                     if a.len() < 6 {
                         a.push(v.clone());
@@ -457,6 +465,8 @@ fn write_evidence(prop: &str, tier: &str, seed: u64, runs: u64, wall: f64, b: &B
         "io_faults": Value::Object(io),
         "counters": Value::Object(other),
         "maxes": s["maxes"],
+        "distinct_call_states": s["state_hashes"].as_array().map(|a| a.len()).unwrap_or(0),
+        "distinct_call_states_measure": "distinct (set of blitters/shaders/rare branches reached by one call, call kind, blend mode, clip depth, layer depth) tuples over all executed calls of primary and twin executions",
         "probes": {"reached": reached, "of": raqote::verif::N_PROBES, "zero": zero_probes, "hits": probes},
         "aborted_runs": s["aborted"],
         "runs_lost_to_process_death_or_backstop": b.died,
